@@ -261,13 +261,15 @@ class Explorer:
         decide_for(node, state, ex) -> None | 'iter' | 'done'   (force a loop decision)
     """
 
-    def __init__(self, cfg: CFG, rule, entry_consts: Optional[Dict[str, object]] = None, max_states=3_000_000, follow_exc=True, entry_valuation=None):
+    def __init__(self, cfg: CFG, rule, entry_consts: Optional[Dict[str, object]] = None, max_states=3_000_000, follow_exc=True, entry_valuation=None, track="all"):
         self.cfg = cfg
         self.rule = rule
         self.entry_consts = dict(entry_consts or {})
         self.entry_valuation = frozenset((entry_valuation or {}).items())
         self.max_states = max_states
         self.follow_exc = follow_exc
+        self.track = track
+        self._corr_keys = None
         self.visited = {}
         self._kill_cache = {}
         self._decide_cache = {}
@@ -385,9 +387,35 @@ class Explorer:
         for k, b in val:
             if k == key:
                 return (b == pol), None
-        if pure:
+        if pure and self._should_track(key, node):
             return None, (key, pol)
         return None, None
+
+    def _should_track(self, key, node):
+        """'all': every pure atom.  'corr': only atoms that can correlate two decisions --
+        tested at >= 2 test nodes, or tested inside a loop (a loop-invariant option must not
+        flip between iterations), or mentioning a name that is assigned a constant."""
+        if self.track == "all":
+            return True
+        if self._corr_keys is None:
+            count = {}
+            inloop = set()
+            consts = set()
+            for n in self.cfg.nodes:
+                if n.kind == "test":
+                    k, _ = normalise_atom(n.ast)
+                    count[k] = count.get(k, 0) + 1
+                    if n.loop is not None:
+                        inloop.add(k)
+                elif n.kind == "stmt" and isinstance(n.ast, ast.Assign) and len(n.ast.targets) == 1 and isinstance(n.ast.targets[0], ast.Name):
+                    if const_of(n.ast.value) is not _UNKNOWN:
+                        consts.add(n.ast.targets[0].id)
+            keys = {k for k, c in count.items() if c >= 2} | inloop
+            for k in count:
+                if _atom_names(k) & consts:
+                    keys.add(k)
+            self._corr_keys = keys
+        return key in self._corr_keys
 
     def _kill(self, node, val, consts):
         info = self._kill_cache.get(node.id)
